@@ -1,5 +1,5 @@
 import subprocess, os, sys, json, shutil
-BASE='/work/repo-c08'
+BASE=os.environ.get('C08_BASE', '/work/repo-c08')
 M='/work/repo-c08m'
 MUTS = {
  'M1-list-sort-no-guard': ('pyglove/core/symbolic/list.py', """    if base.treats_as_sealed(self):
